@@ -1929,7 +1929,7 @@ double ov_time_tell(OggVorbis_File *vf){
     for(link=vf->links-1;link>=0;link--){
       pcm_total-=vf->pcmlengths[link*2+1];
       time_total-=ov_time_total(vf,link);
-      if(vf->pcm_offset>=pcm_total)break;
+      if(vf->pcm_offset>=pcm_total || link==0)break;
     }
   }
 
